@@ -13,7 +13,9 @@ for pid in sys.argv[1:]:
             if os.path.exists(os.path.join(src, f)):
                 shutil.copy(os.path.join(src, f), os.path.join(dst, f))
         notes = open(os.path.join(dst, 'notes.md')).read() if os.path.exists(os.path.join(dst, 'notes.md')) else ''
-        meta = {'property': pid, 'origin': 'independent sub-agent given only the property text and a scratch worktree of /repo HEAD',
+        import re
+        m = re.search(r'property:\s*(C\d\d)', notes)
+        meta = {'property': m.group(1) if m else pid, 'origin': 'independent sub-agent given only the text of the property (or two), one line about each earlier change, and a scratch worktree of /repo HEAD',
                 'needs_to_manifest': notes.strip()[:1500], 'demo': 'demo.py',
                 'confirmed': 'see ../RESULTS.json (tools/run_seeded.py): patch applies, 50 tests pass, demo exit 0 unchanged / != 0 changed'}
         json.dump(meta, open(os.path.join(dst, 'meta.json'), 'w'), indent=1)
